@@ -210,3 +210,65 @@ func VerifC06_OneFrameSymbolic() {
 	}
 	vf.Reach("end")
 }
+
+// Regime A for the message-level APIs: one message of two fragments of lengths n1 in {0,3,125} and
+// symbolic n2 (7-bit length class), an optional Ping between them, a symbolic configured maximum with
+// n1+n2 <= max — which includes a message of EXACTLY the maximum size — and a caller buffer of
+// symbolic length >= n1+n2, delivered in <= S segments of symbolic sizes. Both message APIs must
+// deliver it: no error, the type of the first fragment, n == n1+n2, payload identical at an
+// arbitrary index, stream still active.
+func VerifC06_MessageSymbolic() {
+	// n1 is case-split (so that the second header sits at a concrete offset), n2 is symbolic
+	n1 := [3]int{3, 0, 125}[vf.Choice("n1", vf.Bound("msg.n1-cases", 1, 3))]
+	n2 := vf.Len("n2")
+	vf.Assume(vf.All(0 <= n2, n2 <= 125))
+	max := vf.Int("max")
+	// max >= 1: the optional Ping carries one payload byte, and the frame-size limit applies to it too
+	vf.Assume(vf.All(n1+n2 <= max, 1 <= max, max <= 1<<31))
+	bufLen := 256
+	if vf.Thorough() {
+		bufLen = vf.Len("buflen")
+		vf.Assume(vf.All(n1+n2 <= bufLen, bufLen <= 4096))
+	}
+	typ := 1 + byte(vf.Choice("type", 2))
+	p1, p2 := vf.Bytes("frag1", n1), vf.Bytes("frag2", n2)
+	var wire []byte
+	wire = append(wire, typ, byte(n1))
+	wire = append(wire, p1...)
+	if vf.Bool("ping-between") {
+		wire = append(wire, 0x89, 1, vf.Uint8("ping"))
+		vf.Reach("opt:ping-between-fragments")
+	}
+	wire = append(wire, 0x80, byte(n2))
+	wire = append(wire, p2...)
+	t := &sonic.VerifTransport{In: wire, Total: len(wire), MaxSegs: vf.Bound("msg.segments", 2, 3), MaxWSegs: 1}
+	s := wsNewStream(t, max)
+	vf.Unwind(200)
+	b := make([]byte, bufLen)
+	var err error
+	var n int
+	var mt MessageType
+	if vf.Bool("async") {
+		calls := 0
+		s.AsyncNextMessage(b, func(e error, k int, m MessageType) { calls++; err, n, mt = e, k, m })
+		vf.Assert("asyncnextmessage-once", calls == 1)
+		vf.Reach("async")
+	} else {
+		mt, n, err = s.NextMessage(b)
+	}
+	if n1+n2 == max {
+		vf.Reach("exactly-at-the-limit")
+	}
+	vf.Assert("message-within-the-limit-is-delivered", vf.All(err == nil, n == n1+n2, byte(mt) == typ, s.State() == StateActive))
+	if n1 > 0 {
+		j := vf.Int("j1")
+		vf.Assume(vf.All(0 <= j, j < n1))
+		vf.Assert("message-payload-first-fragment", b[j] == p1[j])
+	}
+	if n2 > 0 {
+		j := vf.Int("j2")
+		vf.Assume(vf.All(0 <= j, j < n2))
+		vf.Assert("message-payload-second-fragment", b[n1+j] == p2[j])
+	}
+	vf.Reach("end")
+}
